@@ -51,11 +51,17 @@ func checkC06Required(c *Ctx, n int) {
 			for _, cmd := range chain {
 				for _, grp := range allGroups(cmd) {
 					for _, o := range grp.Options() {
-						if ln := o.LongNameWithNamespace(); ln != "" && !strings.ContainsAny(ln, "=%") && !strings.HasPrefix(ln, "-") {
+						// every spelling an option answers to counts; one of them is typed
+						ln := o.LongNameWithNamespace()
+						if ln != "" {
 							count["--"+ln]++
+						}
+						if o.ShortName != 0 {
+							count["-"+string(o.ShortName)]++
+						}
+						if ln != "" && !strings.ContainsAny(ln, "=%") && !strings.HasPrefix(ln, "-") {
 							cands = append(cands, cand{o, "--" + ln})
 						} else if o.ShortName != 0 && o.ShortName != '-' && o.ShortName != '=' && o.ShortName != '%' {
-							count["-"+string(o.ShortName)]++
 							cands = append(cands, cand{o, "-" + string(o.ShortName)})
 						}
 					}
